@@ -153,15 +153,14 @@ def impl(case):
             if [row[: len(col[0])] for row in rec] != [row[: len(rec[0])] for row in col] if rec and col else rec != col:
                 obs["iter_differs"] = f"record {j} of the streaming iterator (records collected in a list) holds {rec}; the bulk read holds {col} for that variant"
                 break
-    if fmt != ".vcf.gz+idx" and not case.get("stale_index") and not case["drop_phase_plane"] and case["variants"] and C.plumb(case, "reuse", 3) == 0:
-        # the reader object used for a second file (as many variants, other IDs and positions, the columns in reverse order): what it
+    if fmt != ".vcf.gz+idx" and not case.get("stale_index") and not case["drop_phase_plane"] and case["variants"]:
+        # the reader object used for a second file (as many variants, other IDs and positions): what it
         # holds afterwards is the second file, as a reader that never saw the first one reads it
         path2 = _dir / ("h.chr1" + ext)
         for f in _dir.glob("h.*"):
             f.unlink()
-        nv = len(case["variants"])
-        second = dict(case, variants=[{**v, "id": v["id"] + "x", "pos": v["pos"] + 1000} for v in case["variants"]], data=[row[::-1] for row in case["data"]])
-        if all(len(case["variants"][j]["alleles"]) == len(case["variants"][nv - 1 - j]["alleles"]) for j in range(nv)):
+        second = dict(case, variants=[{**v, "id": v["id"] + "x", "pos": v["pos"] + 1000} for v in case["variants"]])
+        if True:
             gtio.make_obj("GenotypesPLINK" if ext == ".pgen" else "GenotypesVCF", path2, second, chunk_size=case["wchunk"]).write()
             r.fname = path2
             r.read()
